@@ -142,12 +142,21 @@ CLAIMS["C15"] = {
   "note": "NOT covered: the bus's descriptor table across histories, message finalisers, pending-fd timeout and per-connection limit, the send path; refusal to forward fds to peers "
           "without fd support is asserted in the C05 dispatch check. CMSG_DATA is redefined to its pointer form and memcpy is a byte loop (two CBMC 6.11 modelling defects, see DESIGN R18).",
 }
+CLAIMS["C17"] = {
+  "text": "Sequential core only: the real pending-call machinery of dbus-connection.c and dbus-pending-call.c (attach, dbus_connection_dispatch's reply lookup, "
+          "complete_pending_call_and_unlock, detach incl. the hash's value-free callback, reply_handler_timeout, dbus_pending_call_cancel, the client-serial counter) with 1-2 calls "
+          "attached through the real API and a two-step symbolic schedule of REPLY(r: any 32-bit reply_serial) / TIMEOUT(i) / CANCEL(i): no call is ever notified twice; a reply "
+          "completes exactly the attached call whose serial equals its reply_serial and no other; a timeout completes exactly its own call with the local NoReply error; a cancelled "
+          "call is never notified; completion detaches the call (no table entry, timeout removed); callbacks run without the connection lock and the lock is balanced; serials are "
+          "non-zero and consecutive ones distinct.",
+  "note": "Threads, blocking waits (condition variables) and real interleavings are outside: the schedule quantifier is reduced to atomic steps under the connection lock, which a "
+          "ghost lock checks for balance only. Connection-close completion of all calls is not covered. Hash table = 2-slot map, messages = ghost records.",
+}
 NOT_APPLICABLE = {f"C{n:02d}": PENDING for n in range(1, 21)}
 NOT_APPLICABLE["C12"] = ("not decided with this technique here: header edits go through DBusTypeReader delete/set + replacement blocks on DBusString; three encodings in the design round and a "
                          "fixed-capacity in-place-string harness for _dbus_header_remove_unknown_fields (harness/C12_strip.c, concrete two-field header) did not finish symbolic execution "
                          "in 600 s; no partial claim would decide the statement")
-NOT_APPLICABLE["C17"] = ("not built: the pending-call core of dbus-connection.c needs the connection lock/condvar ghost model, DBusHashTable and timeout list models around a 6000-line "
-                         "translation unit; real thread interleavings are outside bounded sequential symbolic execution anyway (DESIGN.md section 5)")
+
 
 NOTES = ("All checks are solver-based (CBMC) over the real sources; see DESIGN.md. Exit 0 = all obligations UNSAT inside the stated bounds; "
          "exit 1 = counterexample (VIOLATION line when the native replay reproduces it); exit 2 = check broken on this tree.")
